@@ -71,7 +71,7 @@ def t_lose_wlock_at_term(n):
     orig = signal.getsignal(signal.SIGTERM)
 
     def on_term(signum, frame):
-        w.outq._wlock.acquire()
+        w.outq._wlock.acquire(False)     # never wait inside this stand-in itself
         return orig(signum, frame)
     signal.signal(signal.SIGTERM, on_term)
     time.sleep(n)
